@@ -50,10 +50,16 @@ def specContains (n : Cidr) (ip : List Nat) : Bool :=
 
 def specAllowed (l : List Cidr) (ip : List Nat) : Bool := l.any (fun n => specContains n ip)
 
-/-- A mask as `net.CIDRMask` builds it: ones, then zeros. -/
-def canonicalMask (m : List Nat) : Bool :=
-  let b := bitsOf m
-  b == List.replicate (leadingOnes b) true ++ List.replicate (b.length - leadingOnes b) false
+/-- A mask byte with `j ≤ 8` leading one bits. -/
+def partialByte (j : Nat) : Nat := 256 - 2 ^ (8 - j)
+
+/-- `net.CIDRMask(ones, 8*len)`: `ones` one bits, then zeros. -/
+def cidrMask : Nat → Nat → List Nat
+  | _, 0 => []
+  | p, l + 1 => if 8 ≤ p then 255 :: cidrMask (p - 8) l else partialByte p :: cidrMask 0 l
+
+/-- A mask as `net.CIDRMask` builds it. -/
+def canonicalMask (m : List Nat) : Bool := m == cidrMask (leadingOnes (bitsOf m)) m.length
 
 def bytesOk (l : List Nat) : Bool := l.all (· < 256)
 
@@ -98,6 +104,14 @@ def stmtGated : Server → List String
 def Tok.wf (t : Tok) : Bool := !t.valid || t.text != ""
 
 def Req.wf (r : Req) : Bool := r.peer.wf && r.xreal.all Tok.wf && r.hops.all Tok.wf
+
+/-- Parsed addresses as `net.ParseIP` returns them: 16 (or 4) bytes. -/
+def Tok.ipwf (t : Tok) : Bool :=
+  match t.ip with
+  | some b => bytesOk b && (b.length == 4 || b.length == 16)
+  | none => true
+
+def Req.ipwf (r : Req) : Bool := r.peer.ipwf && r.xreal.all Tok.ipwf && r.hops.all Tok.ipwf
 
 /-! ### Judge: the statement evaluated on what the implementation did
 
